@@ -1191,3 +1191,19 @@ Proof.
   - right. split; [reflexivity|]. intros; discriminate.
   - contradiction.
 Qed.
+
+(** The element loop of case ListType runs to the count read from the wire (read from the source on
+    every run), and the round trip has no cap at MAX_PARAM_LENGTH or anywhere below 2^32. *)
+Lemma list_loop_uses_wire_count : LIST_LOOP_USES_WIRE_COUNT = true.
+Proof. reflexivity. Qed.
+
+Lemma no_cap_at_max_param_length l :
+  wf_g (GList l) = true -> MAX_PARAM_LENGTH < N.of_nat (length l) ->
+  exists b, g_encode_value (GList l) = EOk b /\
+    (N.of_nat (length b) < two64 ->
+     decode_value (src_new b) = DOk (XList (map norm l)) (mkSrc b (length b)) /\
+     length (map norm l) = length l).
+Proof.
+  intros Hwf _. destruct (round_trip_top (GList l) Hwf eq_refl) as [b [Eb [_ Hd]]].
+  exists b. split; [exact Eb|]. intro Hf. split; [exact (Hd Hf)|apply map_length].
+Qed.
